@@ -9,9 +9,7 @@ model, never axioms:
 * `convert.UnifyUnsafe` and `convert.Convert` (properties C08/C09 model them);
 * `Value.Hash()` of a prospective set member (crc32 of `makeSetHashBytes`) and
   the byte-order of two such hash strings (`setRules.Less` for element types
-  that are not primitive);
-* whether the `step` argument of `range` IS the package singleton `cty.Zero`
-  (`step == cty.Zero` compares the `*big.Float` pointers).
+  that are not primitive).
 
 The driver instantiates `Env` from oracle columns the harness computes with the
 real library; theorems quantify over every `Env`.
@@ -36,8 +34,6 @@ structure Env where
   hash : Ty → Payload → Option Int := fun _ _ => none
   /-- `bytes.Compare(makeSetHashBytes(a), makeSetHashBytes(b)) < 0` -/
   bytesLess : Ty → Payload → Payload → Bool := fun _ _ _ => false
-  /-- `args[2] == cty.Zero` in `range` (pointer identity with the singleton) -/
-  stepIsZeroSingleton : Bool := false
 
 /-- `convert.Convert(in, want)`: its first statement returns `in` itself when the
 type already is the wanted one; everything else is the environment's answer -/
